@@ -289,6 +289,11 @@ func (x Expr) Get(data any) (results []any) {
 			di, _ := stack[len(stack)-1].(fragIndex)
 			top := (di & descentChildFlag) == 0
 			// first pass expands, second continues evaluation
+			if (di & descentFlag) != 0 {
+				// Second pass for this element. Clear the flag on the fragment index
+				// shared with the siblings still on the stack so they get expanded too.
+				stack[len(stack)-1] = di &^ descentFlag
+			}
 			if (di & descentFlag) == 0 {
 				switch tv := prev.(type) {
 				case map[string]any:
@@ -1155,6 +1160,11 @@ func (x Expr) FirstFound(data any) (any, bool) {
 		case Descent:
 			di, _ := stack[len(stack)-1].(fragIndex)
 			// first pass expands, second continues evaluation
+			if (di & descentFlag) != 0 {
+				// Second pass for this element. Clear the flag on the fragment index
+				// shared with the siblings still on the stack so they get expanded too.
+				stack[len(stack)-1] = di &^ descentFlag
+			}
 			if (di & descentFlag) == 0 {
 				switch tv := prev.(type) {
 				case map[string]any:
